@@ -142,6 +142,12 @@ JudgeSink(k, a) ==
        /\ Clause1("no_plaintext_to_subscriber_sink:provider",
                   \A i \in 1..Len(a.contacts) : SinkContactOK(a.contacts[i]))
 
+\* a = [exc, events : Seq([ev, netloc_kind, ctx, out])]: what the enforcing consumer did while it started
+JudgeSecond(k, a) ==
+  /\ Clause1("SANITY:second_location_contacted", \E i \in 1..Len(a.events) : a.events[i].second)
+  /\ Clause1("no_plaintext_to_second_location:consumer",
+             \A i \in 1..Len(a.events) : a.events[i].ctx = ClientCtx("consumer"))
+
 (* ------------------------------------------------------------------ one state per record *)
 CaseOf(j) ==
   CASE j.kind = "cfg" -> [kind |-> "cfg", ptls |-> j.ptls, ctls |-> j.ctls, psrv |-> j.psrv, csrv |-> j.csrv,
@@ -149,17 +155,20 @@ CaseOf(j) ==
     [] j.kind = "cert" -> [kind |-> "cert", entry |-> j.entry, ca |-> j.ca, cyphers |-> j.cyphers]
     [] j.kind = "client" -> [kind |-> "client", cls |-> j.cls, ctx |-> j.ctx]
     [] j.kind = "sink" -> [kind |-> "sink", mgr |-> j.mgr, notify |-> j.notify, endto |-> j.endto]
+    [] j.kind = "second" -> [kind |-> "second", mgr |-> j.mgr, psrv |-> j.psrv]
 
 InDomain(c) == CASE c.kind = "cfg" -> c \in Configs
                  [] c.kind = "cert" -> c \in CertCases
                  [] c.kind = "client" -> c \in ClientCases
                  [] c.kind = "sink" -> c \in SinkCases
+                 [] c.kind = "second" -> c \in SecondCases
 
 JudgeFirst(c, rec) ==
   /\ Clause1("SANITY:case_in_domain", InDomain(c))
   /\ InDomain(c) => CASE c.kind = "cert" -> JudgeCert(c, rec.a)
                       [] c.kind = "client" -> JudgeClient(c, rec.a)
                       [] c.kind = "sink" -> JudgeSink(c, rec.a)
+                      [] c.kind = "second" -> JudgeSecond(c, rec.a)
                       [] OTHER -> TRUE
 
 TraceInit == /\ tid \in 1..Len(Traces)
